@@ -296,6 +296,39 @@ fn c08_commit_one_tip() {
     mem::forget(r);
 }
 
+/// ⟦Transaction::commit⟧, the stamp gate alone (no tips, nothing in flight — the map-free
+/// slice of `c08_commit_one_tip`, which CBMC does not finish in 50 min): (a) no captured stamp
+/// ⇒ `Ok(false)`; (b) stamp ≠ `heads_offset()` ⇒ `Err(ConcurrentTransaction)`; (c) equal stamp,
+/// no tips ⇒ `Ok(false)`. In all three nothing is written and no heads are committed.
+#[kani::proof]
+#[kani::unwind(34)]
+#[kani::stub(evaluate_braid, stub_evaluate_braid)]
+fn c08_commit_stamp_gate() {
+    let mut trx: Trx = Transaction::new(GraphId::default());
+    let has_offset: bool = kani::any();
+    let captured: u64 = kani::any();
+    trx.original_heads_offset = if has_offset { Some(HeadSetOffset::new(captured)) } else { None };
+    let mut sp = MSP::any();
+    let current = sp.storage.offset;
+    let mut ps = MPS::new(true, false);
+    let mut sink = MSink;
+    let mut bufs: RuntimeBuffers<MSeg> = RuntimeBuffers::new();
+    let r = trx.commit::<NoSpill, _>(&mut sp, &mut ps, &mut sink, &mut bufs, &mk_spill);
+    if !has_offset {
+        assert!(matches!(r, Ok(false)));
+    } else if captured != current {
+        assert!(matches!(r, Err(ClientError::ConcurrentTransaction)));
+        kani::cover!(true);
+    } else {
+        assert!(matches!(r, Ok(false)));
+        kani::cover!(true);
+    }
+    assert!(storage_mutations() == 0);
+    assert!(sp.storage.offset == current);
+    assert!(count(BEGIN) == 0 && count(COMMIT) == 0 && count(BRAID) == 0);
+    mem::forget(r);
+}
+
 /// ⟦Transaction::add_commands⟧, first call on an existing graph with a batch
 /// whose commands are all already present: the committed heads are copied into
 /// the tips and the head-set stamp is captured — exactly once, on first use,
